@@ -206,6 +206,9 @@ pub fn run(ctx: &Ctx) -> Report {
                 cfg.oy = oy;
                 cfg.orient = o;
                 cases.push(ProgCase { cfg: cfg.clone(), ops: vec![DrawOp::Clear { seed: 1 }] });
+                // black / white / uniform-byte colours (single-word paths of the transports)
+                cases.push(ProgCase { cfg: cfg.clone(), ops: vec![DrawOp::Clear { seed: UNIFORM_SEED_BASE }] });
+                cases.push(ProgCase { cfg: cfg.clone(), ops: vec![DrawOp::Clear { seed: UNIFORM_SEED_BASE + 4 }] });
                 let (lw, lh) = cfg.logical_size(o);
                 cases.push(ProgCase { cfg, ops: vec![DrawOp::FillSolid { rect: Rect { x: -5, y: -5, w: lw + 10, h: lh + 10 }, seed: 2 }] });
             }
